@@ -1,5 +1,10 @@
 (* C08 -- Presentation options and option spelling never change what is found.
-   Only statements; every proof is `exact <lemma>`. *)
+   Only statements; every proof is `exact <lemma>`.
+
+   Part 1 (this half): the spelling laws of the option parser, Model/Getopt.v,
+   over ANY well-formed option table, from ANY parser state (settings so far,
+   arguments collected so far) and with ANY following arguments.  Byte values:
+   45 = '-', 61 = '=', 44 = ','. *)
 From PV Require Import Lib.Bytes Model.Getopt Gen.Options Spec.OptionsDoc Proofs.Getopt.
 Open Scope N_scope.
 
@@ -7,3 +12,140 @@ Open Scope N_scope.
 Theorem C08_table_is_documented : map doc_view option_table = documented_options.
 Proof. exact table_is_documented. Qed.
 Print Assumptions C08_table_is_documented.
+
+(* ... and is well-formed: short names ASCII and not '-', long names non-empty without '=',
+   no short or long name twice *)
+Theorem C08_option_table_wf : wf_table option_table.
+Proof. exact option_table_wf. Qed.
+Print Assumptions C08_option_table_wf.
+
+(* Parse is total on a well-formed table: no panic site reached, fuel suffices *)
+Theorem C08_parse_total : forall t, wf_table t -> forall args,
+  match parse t args with ROk _ _ | RErr _ _ _ => True | RPanic | ROutOfFuel => False end.
+Proof. exact parse_total. Qed.
+Print Assumptions C08_parse_total.
+
+(* -c is --long *)
+Theorem C08_long_eq_short : forall t, wf_table t -> forall i o, nth_error t i = Some o ->
+  forall st rem post,
+    parse_args t st rem ([45; o_short o] :: post) =
+    parse_args t st rem ((45 :: 45 :: o_long o) :: post).
+Proof. exact long_eq_short. Qed.
+Print Assumptions C08_long_eq_short.
+
+(* --p and --p=value are --long and --long=value when p is a prefix of exactly one long name *)
+Theorem C08_unique_prefix_eq_long : forall t, wf_table t -> forall i o p sfx,
+  (nth_error t i = Some o /\ has_prefix p (o_long o) = true /\
+   forall j o', nth_error t j = Some o' -> j <> i -> has_prefix p (o_long o') = false) ->
+  p <> [] -> (sfx = [] \/ exists v, sfx = 61 :: v) ->
+  forall st rem post,
+    parse_args t st rem ((45 :: 45 :: p ++ sfx) :: post) =
+    parse_args t st rem ((45 :: 45 :: o_long o ++ sfx) :: post).
+Proof. exact unique_prefix_eq_long. Qed.
+Print Assumptions C08_unique_prefix_eq_long.
+
+(* an abbreviation that fits two long names (and is none) is rejected as ambiguous *)
+Theorem C08_ambiguous_prefix_is_error : forall t p sfx m1 m2 o1 o2,
+  m1 <> m2 -> nth_error t m1 = Some o1 -> nth_error t m2 = Some o2 ->
+  has_prefix p (o_long o1) = true -> has_prefix p (o_long o2) = true ->
+  (forall m o, nth_error t m = Some o -> o_long o <> p) ->
+  p <> [] -> no_eq p = true -> (sfx = [] \/ exists v, sfx = 61 :: v) ->
+  forall st rem post, exists a b,
+    parse_args t st rem ((45 :: 45 :: p ++ sfx) :: post) = RErr st rem (EAmbiguous a b).
+Proof. exact ambiguous_prefix_is_error. Qed.
+Print Assumptions C08_ambiguous_prefix_is_error.
+
+(* -abcTAIL is -a -b -c -TAIL for flags a b c; TAIL is empty or anything not starting with '-'
+   (e.g. an option letter with its attached argument) *)
+Theorem C08_cluster_eq_separate : forall t, wf_table t -> forall cs tail,
+  Forall (fun c => exists i o, nth_error t i = Some o /\ o_kind o = KBool /\ o_short o = c) cs ->
+  cs <> [] -> match tail with [] => True | x :: _ => x <> 45 end ->
+  forall st rem post,
+    parse_args t st rem ((45 :: cs ++ tail) :: post) =
+    parse_args t st rem (map (fun c => [45; c]) cs ++
+                         match tail with [] => [] | _ => [45 :: tail] end ++ post).
+Proof. exact cluster_eq_separate. Qed.
+Print Assumptions C08_cluster_eq_separate.
+
+(* --p=value is --p value for an option that takes an argument (p a unique prefix or the name itself) *)
+Theorem C08_eq_arg_eq_next_arg : forall t, wf_table t -> forall i o p v,
+  (nth_error t i = Some o /\ has_prefix p (o_long o) = true /\
+   forall j o', nth_error t j = Some o' -> j <> i -> has_prefix p (o_long o') = false) ->
+  p <> [] -> o_kind o <> KBool ->
+  forall st rem post,
+    parse_args t st rem ((45 :: 45 :: p ++ 61 :: v) :: post) =
+    parse_args t st rem ((45 :: 45 :: p) :: v :: post).
+Proof. exact eq_arg_eq_next_arg. Qed.
+Print Assumptions C08_eq_arg_eq_next_arg.
+
+Theorem C08_eq_arg_eq_next_arg_long : forall t, wf_table t -> forall i o v,
+  nth_error t i = Some o -> o_kind o <> KBool ->
+  forall st rem post,
+    parse_args t st rem ((45 :: 45 :: o_long o ++ 61 :: v) :: post) =
+    parse_args t st rem ((45 :: 45 :: o_long o) :: v :: post).
+Proof. exact eq_arg_eq_next_arg_long. Qed.
+Print Assumptions C08_eq_arg_eq_next_arg_long.
+
+(* -ovalue is -o value *)
+Theorem C08_short_attached_eq_next_arg : forall t, wf_table t -> forall i o v,
+  nth_error t i = Some o -> o_kind o <> KBool -> v <> [] ->
+  forall st rem post,
+    parse_args t st rem ((45 :: o_short o :: v) :: post) =
+    parse_args t st rem ([45; o_short o] :: v :: post).
+Proof. exact short_attached_eq_next_arg. Qed.
+Print Assumptions C08_short_attached_eq_next_arg.
+
+(* -Wa,b is -Wa -Wb (a, b arbitrary non-empty comma lists, known flags or not) *)
+Theorem C08_group_comma_eq_repeat : forall t, wf_table t -> forall i o a b,
+  nth_error t i = Some o -> o_kind o = KGroup -> a <> [] -> b <> [] ->
+  forall st rem post,
+    parse_args t st rem ((45 :: o_short o :: a ++ 44 :: b) :: post) =
+    parse_args t st rem ((45 :: o_short o :: a) :: (45 :: o_short o :: b) :: post).
+Proof. exact group_comma_eq_repeat_short. Qed.
+Print Assumptions C08_group_comma_eq_repeat.
+
+(* --warning=a,b is --warning=a --warning=b *)
+Theorem C08_group_comma_eq_repeat_long : forall t, wf_table t -> forall i o a b,
+  nth_error t i = Some o -> o_kind o = KGroup ->
+  forall st rem post,
+    parse_args t st rem ((45 :: 45 :: o_long o ++ 61 :: a ++ 44 :: b) :: post) =
+    parse_args t st rem ((45 :: 45 :: o_long o ++ 61 :: a) :: (45 :: 45 :: o_long o ++ 61 :: b) :: post).
+Proof. exact group_comma_eq_repeat_long. Qed.
+Print Assumptions C08_group_comma_eq_repeat_long.
+
+(* everything after "--" is an argument, the settings are left alone *)
+Theorem C08_after_dashdash_are_args : forall t st rem post,
+  parse_args t st rem ([45; 45] :: post) = ROk st (rem ++ post).
+Proof. exact after_dashdash_are_args. Qed.
+Print Assumptions C08_after_dashdash_are_args.
+
+(* "for arbitrary surrounding argv": each law above has the form
+   forall st rem post, parse_args t st rem (x ++ post) = parse_args t st rem (y ++ post);
+   such x and y can be exchanged inside any complete command line, provided the words
+   before them leave the parser looking for an option (they do not end in an option
+   still waiting for its argument, contain no "--" and no error) *)
+Theorem C08_equivalent_in_context : forall t x y,
+  (forall st rem post, parse_args t st rem (x ++ post) = parse_args t st rem (y ++ post)) ->
+  forall prog pre post st rem,
+    (forall post', parse_args t (init t) [] (pre ++ post') = parse_args t st rem post') ->
+    parse t (prog :: pre ++ x ++ post) = parse t (prog :: pre ++ y ++ post).
+Proof. exact equivalent_in_context. Qed.
+Print Assumptions C08_equivalent_in_context.
+
+(* the side condition cannot be dropped: `p -o -q` and `p -o --quiet` differ (the word after -o is its argument) *)
+Example C08_position_matters :
+  parse option_table [[112]; [45; 111]; [45; 113]] <>
+  parse option_table [[112]; [45; 111]; [45; 45; 113; 117; 105; 101; 116]].
+Proof. exact position_matters. Qed.
+
+(* non-vacuity on pkglint's own table: -q, --quiet and --q all set entry 12 (lopts.Quiet), "-Wall,no-extra" ... *)
+Example C08_witness_quiet :
+  nth_error option_table 12 = Some (mk_odecl 113 [113; 117; 105; 101; 116] KBool false [] [] [108; 111; 112; 116; 115; 46; 81; 117; 105; 101; 116]) /\
+  (forall j o', nth_error option_table j = Some o' -> j <> 12%nat -> has_prefix [113] (o_long o') = false) /\
+  parse option_table [[112]; [45; 113]] = parse option_table [[112]; [45; 45; 113]] /\
+  nth_error (match parse option_table [[112]; [45; 113]] with ROk st _ => st | _ => [] end) 12 = Some (VBool true).
+Proof.
+  split; [reflexivity|]. split; [|split; vm_compute; reflexivity].
+  intros j o' Hj Hne. do 17 (destruct j as [|j]; [try congruence; inversion Hj; subst; reflexivity|]).
+  destruct j; discriminate.
+Qed.
